@@ -118,10 +118,23 @@ def run_case(case):
     import importlib
     FF = importlib.import_module('j1939.message_id').FrameFormat
 
+    scribble = random.Random(case['seed'] ^ 0x5C21)
+    reused = [0]
+
     def submit(g):
         ca = senders[g['snd']]
-        rec = W.call('send_pgn', ca.send_pgn, g['dp'], g['pf'], g['ps'], g['prio'], list(g['data']), g['limit'],
+        buf = list(g['data'])
+        rec = W.call('send_pgn', ca.send_pgn, g['dp'], g['pf'], g['ps'], g['prio'], buf, g['limit'],
                      FF.FBFF if g['fmt'] == 'FBFF' else FF.FEFF)
+        # the application re-uses its buffer as soon as the call has returned: what was given to send_pgn is what must be sent
+        how = scribble.choice(['keep', 'overwrite', 'clear', 'grow'])
+        if how == 'overwrite':
+            buf[:] = [0xEE] * len(buf)
+        elif how == 'clear':
+            del buf[:]
+        elif how == 'grow':
+            buf.extend([0xDD] * 7)
+        reused[0] += how != 'keep'
         g['ret'] = rec['ret']
         g['exc'] = rec['exc']
         g['t_sub'] = rec['t0']
@@ -141,7 +154,7 @@ def run_case(case):
 
     # ---------------------------------------------------------------- oracle on the wire
     obs = dict(groups_checked=0, groups_time_limited=0, frames_with_several_groups=0, fbff_frames=0, mpg_frames=0, deliveries_compared=0,
-               late_max_ms=0, refused_fbff=0, preempted_cases=1 if pre else 0, preemption_holds=holds_n[0], chasers=sum(1 for g in groups if g.get('chaser')))
+               late_max_ms=0, refused_fbff=0, preempted_cases=1 if pre else 0, preemption_holds=holds_n[0], chasers=sum(1 for g in groups if g.get('chaser')), buffers_reused=reused[0])
     sn = SN.sniff(layer, [f for f in W.bus.frames if f.src == 'A'])
     pending = collections.defaultdict(list)       # (fbff, sa, da) -> submitted groups not yet seen on the bus
     for g in groups:
